@@ -62,54 +62,51 @@ impl CornerRadii {
     /// scaled down by the same factor until none of the sides overflows anymore. The factor is
     /// the smallest ratio between the length of a side and the sum of the radii along this side.
     pub(in crate::primitives) fn confine(self, bounding_box: Size) -> Self {
+        // The sums are calculated as `u64` to prevent overflows for very large radii.
         let sides = [
             // Top
             (
                 bounding_box.width,
-                self.top_left.width.saturating_add(self.top_right.width),
+                u64::from(self.top_left.width) + u64::from(self.top_right.width),
             ),
             // Right
             (
                 bounding_box.height,
-                self.top_right
-                    .height
-                    .saturating_add(self.bottom_right.height),
+                u64::from(self.top_right.height) + u64::from(self.bottom_right.height),
             ),
             // Bottom
             (
                 bounding_box.width,
-                self.bottom_left
-                    .width
-                    .saturating_add(self.bottom_right.width),
+                u64::from(self.bottom_left.width) + u64::from(self.bottom_right.width),
             ),
             // Left
             (
                 bounding_box.height,
-                self.top_left.height.saturating_add(self.bottom_left.height),
+                u64::from(self.top_left.height) + u64::from(self.bottom_left.height),
             ),
         ];
 
         // Scale factor `size / corner_size` of the most constraining side.
-        let mut size = 1;
-        let mut corner_size = 1;
+        let mut size = 1u32;
+        let mut corner_size = 1u64;
 
         for (side_size, side_corner_size) in sides {
             // side_size / side_corner_size < size / corner_size
             //
-            // The comparison and the scaling below use 64 bit integers to prevent overflows.
-            if u64::from(side_size) * u64::from(corner_size)
-                < u64::from(size) * u64::from(side_corner_size)
+            // The products can exceed the range of `u64`, because the sums are larger than `u32`.
+            if u128::from(side_size) * u128::from(corner_size)
+                < u128::from(size) * u128::from(side_corner_size)
             {
                 size = side_size;
                 corner_size = side_corner_size;
             }
         }
 
-        if size < corner_size {
+        if u64::from(size) < corner_size {
             let scale = |radius: Size| {
                 let scale_length = |length: u32| {
                     // The result always fits into a `u32`, because `size < corner_size`.
-                    (u64::from(length) * u64::from(size) / u64::from(corner_size)) as u32
+                    (u64::from(length) * u64::from(size) / corner_size) as u32
                 };
 
                 Size::new(scale_length(radius.width), scale_length(radius.height))
